@@ -12,6 +12,7 @@ EXTENDS Naturals, Integers, Sequences, FiniteSets, TLC
 \*  mc  : method class, see MethodC
 MethodC == {"absent", "nonstr", "empty",                       \* structurally invalid
             "ok", "raise", "typeerr", "badarity", "convfail",  \* registered functions
+            "retfault",                                        \* a registered function that *returns* its own Fault (code -32050)
             "unknown",                                         \* resolves to nothing
             "inst_pub", "inst_nested",                         \* attributes of the registered instance
             "inst_priv", "inst_nested_priv"}                   \* a segment starts with "_": never resolved
@@ -28,18 +29,19 @@ Notif(e) == e.idc \in {"absent", "null", "empty"}
 \* error code of the reply (0 = a result), default dispatch through the registry
 CodeDefault(mc) == CASE mc \in {"ok", "inst_pub", "inst_nested"} -> {0}
                      [] mc \in {"raise", "convfail"} -> {-32603}
+                     [] mc = "retfault" -> {-32050}
                      [] mc = "badarity" -> {-32602}
                      [] mc = "typeerr" -> {-32602, -32603}        \* a TypeError raised inside the body cannot be told apart
                      [] mc \in {"unknown", "inst_priv", "inst_nested_priv"} -> {-32601}
                      [] OTHER -> {-32600}
 \* a custom dispatch function decides by itself; the harness' function raises for "raise", returns an
 \* unconvertible value for "convfail" and a value otherwise
-CodeCustom(mc) == IF mc \in {"raise", "convfail"} THEN {-32603} ELSE {0}
+CodeCustom(mc) == IF mc \in {"raise", "convfail"} THEN {-32603} ELSE IF mc = "retfault" THEN {-32050} ELSE {0}
 Code(e, dk) == IF dk = "default" THEN CodeDefault(e.mc) ELSE CodeCustom(e.mc)
 \* how often the body of a registered callable (or the custom dispatch function) runs for this entry
 Calls(e, dk) == IF ~Valid(e) THEN 0
                 ELSE IF dk = "custom" THEN 1
-                ELSE IF e.mc \in {"ok", "raise", "typeerr", "convfail", "inst_pub", "inst_nested"} THEN 1 ELSE 0
+                ELSE IF e.mc \in {"ok", "raise", "typeerr", "convfail", "retfault", "inst_pub", "inst_nested"} THEN 1 ELSE 0
 
 \* expected reply to one entry.  form: "1" | "2" | "any" (invalid entries: the lenient reading of C13)
 EntryReply(e, sv, dk) ==
